@@ -96,7 +96,7 @@ def known_witness(rep: Report, modname: str):
         if f.get("engine", "XH") != "XH":
             continue
         mod = __import__(modname, fromlist=["x"])
-        r, err = replay(modname, f["witness"], real=getattr(mod, "HAS_REAL", False))
+        r, err = replay(modname, f["witness"], real=getattr(mod, "HAS_REAL", False), env={"XH_NO_KF": "1"})
         ob = rep.add(Obligation(name="known:" + pred, engine="XH", cex=f["witness"]))
         if r is None:
             ob.status, ob.detail = "inconclusive", "witness replay failed: " + (err or "")
